@@ -21,14 +21,16 @@ Fns    == {"plain", "test", "testAttrs", "async"}
 Loops  == {"for", "while", "loop"}
 Wraps  == {"spawn_blocking", "block_in_place"}
 Inners == Loops \cup Wraps \cup {"closure"}
+\* cloneWhileCond: `while d.clone().len() > 100 { .. }` - the clone stands in the loop's CONDITION, evaluated on every
+\* iteration: it is inside that loop whatever encloses the statement
 \* cloneLetMentioned: like cloneLetUnused, and the source's NAME occurs afterwards in a string literal, a comment and
 \* as a field name of another value - none of which is a use of the variable
 \* unwrapChain2 / unwrapChainLines: two .unwrap() calls in one method chain (on one line / one call per line);
 \* expectThenUnwrap: `.expect(..)` and `.unwrap()` in one chain
-Items  == {"unwrap", "expect", "unwrapChain2", "unwrapChainLines", "expectThenUnwrap", "clonePlain", "cloneChain", "cloneLetUnused", "cloneLetMentioned",
+Items  == {"unwrap", "expect", "unwrapChain2", "unwrapChainLines", "expectThenUnwrap", "clonePlain", "cloneChain", "cloneLetUnused", "cloneLetMentioned", "cloneWhileCond",
            "blockFs", "blockFsUse", "blockSleep", "blockNet"}
 LinterOf(it) == CASE it \in {"unwrap", "expect", "unwrapChain2", "unwrapChainLines", "expectThenUnwrap"} -> "unwrap-abuse"
-                  [] it \in {"clonePlain", "cloneChain", "cloneLetUnused", "cloneLetMentioned"} -> "clone-abuse"
+                  [] it \in {"clonePlain", "cloneChain", "cloneLetUnused", "cloneLetMentioned", "cloneWhileCond"} -> "clone-abuse"
                   [] OTHER -> "blocking-async"
 
 InnerSeqs == {<<>>} \cup {<<a>> : a \in Inners} \cup {<<a, b>> : a \in Inners, b \in Inners}
@@ -48,6 +50,7 @@ Reported(s, o) ==
     CASE s.item \in {"unwrap", "unwrapChain2", "unwrapChainLines", "expectThenUnwrap"} -> ~Exempt(s, o)
       [] s.item = "expect" -> ~o.allowExpect /\ ~Exempt(s, o)
       [] s.item = "clonePlain"     -> InLoop(s) /\ o.detectLoop /\ ~Exempt(s, o)
+      [] s.item = "cloneWhileCond" -> o.detectLoop /\ ~Exempt(s, o)
       [] s.item = "cloneChain"     -> ((InLoop(s) /\ o.detectLoop) \/ o.detectChain) /\ ~Exempt(s, o)
       [] s.item \in {"cloneLetUnused", "cloneLetMentioned"} -> ((InLoop(s) /\ o.detectLoop) \/ o.detectUnnecessary) /\ ~Exempt(s, o)
       [] s.item \in {"blockFs", "blockFsUse"} -> InAsync(s) /\ ~InWrapper(s) /\ o.detectFs /\ ~Exempt(s, o)
